@@ -20,6 +20,7 @@ import (
 	"github.com/33cn/chain33/types"
 	"verif/vnode"
 	"verif/vnode/lidx"
+	"verif/vnode/lidx/vlx"
 	"verif/vnode/treex"
 	"verif/vx"
 )
@@ -68,7 +69,7 @@ func main() {
 	r = vx.Start("C14", "model_checking")
 	clog.SetLogLevel("crit")
 	r.QuietStderr()
-	r.Rule = "configuration in {mvcc plugin on, off} (txindex, addrindex, addrfeeindex, fee, stat always on) x chain = 12-block trunk + k prefix blocks (k = 0,1,2) + block B from the alphabet (coins transfer to a known / never-seen / own address, several receivers, same pair twice, sender that is also receiver, receiver that spends in the same block, transfer failing for lack of balance, none, manage Modify by the super manager, manage Apply (local table with rollback log), group of two succeeding and failing, mixtures; 1-3 transactions) x how B is removed in {lighter B replaced by a sibling S on disjoint addresses, by a sibling on overlapping addresses incl. the never-seen one, B buried under one more block and both replaced by a much heavier S}; a fresh real node connects prefix and B, then receives S (reorganisation disconnects B and connects S); oracle: every key of the blockchain database outside hash-addressed block storage and the sequence log, and every public local query, equal to a node that received prefix and S only. state = (configuration, k, removal, B); distinct = (state, index families B had changed) classes"
+	r.Rule = "configuration in {mvcc plugin on, off} (txindex, addrindex, addrfeeindex, fee, stat always on) x chain = 12-block trunk + k prefix blocks (k = 0,1,2) + block B from the alphabet (coins transfer to a known / never-seen / own address, several receivers, same pair twice, sender that is also receiver, receiver that spends in the same block, transfer failing for lack of balance, none, manage Modify by the super manager, manage Apply (local table with rollback log), group of two succeeding and failing, mixtures; 1-3 transactions; plus three blocks of a synthetic executor whose local data is an order-sensitive stack) x how B is removed in {lighter B replaced by a sibling S on disjoint addresses, by a sibling on overlapping addresses incl. the never-seen one, B buried under one more block and both replaced by a much heavier S}; a fresh real node connects prefix and B, then receives S (reorganisation disconnects B and connects S); oracle: every key of the blockchain database outside hash-addressed block storage and the sequence log, and every public local query, equal to a node that received prefix and S only. state = (configuration, k, removal, B); distinct = (state, index families B had changed) classes"
 	r.Assume = []string{
 		"hash-addressed block storage (CHAIN-, TD:) and the sequence log (Seq:, HashToSeq:, LastSequence) legitimately keep the disconnected block and are not compared",
 		"records left behind that no listed query can tell from an absent record are counted and noted, not reported: a counter record holding zero, and the mvcc plugin's key list of a removed version (rewritten by the next block of that height before anything reads it)",
@@ -129,7 +130,7 @@ func run(env *lidx.Env, cfgName string, siblings []int) {
 	prefix := []*types.Block{}
 	ptxs := [][]*types.Transaction{
 		{env.Transfer(lidx.A, lidx.D, 1), env.Transfer(lidx.G, lidx.B, 2*lidx.Fee)},
-		{env.Transfer(lidx.E, lidx.A, 3), env.None(lidx.A)},
+		{env.Transfer(lidx.E, lidx.A, 3), env.None(lidx.A), env.Vlx(lidx.A, "p")},
 	}
 	parent := env.Tip()
 	for i, txs := range ptxs {
@@ -151,8 +152,8 @@ func run(env *lidx.Env, cfgName string, siblings []int) {
 		return prefix[k-1]
 	}
 	addrs := append([]string{}, lidx.Addrs[:]...)
-	addrs = append(addrs, address.ExecAddress("none"), address.ExecAddress("manage"), address.ExecAddress("coins"))
-	specs := lidx.Alphabet()
+	addrs = append(addrs, address.ExecAddress("none"), address.ExecAddress("manage"), address.ExecAddress("coins"), vlx.Addr())
+	specs := append(lidx.Alphabet(), lidx.Synthetic()...)
 	for k := 0; k <= 2; k++ {
 		for _, si := range siblings {
 			F := forkAt(k)
